@@ -64,6 +64,44 @@ def to_sym(x, sort):
     raise Unsupported(f"concrete value of sort {sort}")
 
 
+def oracle_call(K, args):
+    """concrete mode: value of an ASSUMED callee = what the real function returns"""
+    sorts = list(K.params.values())
+    real_args = []
+    for a, srt in zip(args, sorts):
+        if srt == "Perm":
+            from permuta import Perm
+
+            real_args.append(Perm(from_sym(a)))
+        elif srt in ("int", "nat", "bool"):
+            real_args.append(from_sym(a))
+        else:
+            raise Unsupported(f"oracle call: argument sort {srt}")
+    res = policy.resolve(K.name)(*real_args)
+    if hasattr(res, "__next__"):
+        res = list(res)
+    r = K.returns
+    if r.startswith("Seq[int*"):
+        rows = [TupV([IntV(int(x)) for x in row]) for row in res]
+        return SeqV(len(rows), lambda i, rows=rows: _pick(i, rows), "list")
+    if r in ("int", "nat"):
+        return IntV(int(res))
+    if r == "bool":
+        return BoolV(bool(res))
+    if r in ("Seq", "gen", "IntList"):
+        return conc_seq(tuple(res))
+    if r == "Perm":
+        return conc_seq(tuple(res), "Perm")
+    raise Unsupported(f"oracle call: result sort {r}")
+
+
+def _pick(i, rows):
+    s = z3.simplify(Z(i))
+    if z3.is_int_value(s) and 0 <= s.as_long() < len(rows):
+        return rows[s.as_long()]
+    raise Unsupported("oracle result indexed symbolically / out of range")
+
+
 def from_sym(v, universe=6):
     """symbolic result -> plain Python data"""
     if isinstance(v, NoneV):
@@ -147,6 +185,7 @@ def symbolic_run(qualname, args):
     F = idx.get(qualname.split("@")[0])
     eng = engine.Engine(idx)
     eng.concrete = True
+    eng.concrete_oracle = oracle_call
     eng.func, eng.contract = F, K
     k_ord = 0
     import ast as _ast
